@@ -208,7 +208,7 @@ R.contract("Node.receive_dpr", params={"self": "Node", "conn": "PeerConnection",
 R.contract("Node.receive_dwa", params={"self": "Node", "conn": "PeerConnection", "message": "Message"},
            ensures=[("ready-again", "conn.state == ite(old(conn.state) == %d, %d, old(conn.state))" % (READY_WAITING_DWA, READY)),
                     ("timer-cleared", "conn._last_dwr == 0"), ("nothing-sent", "nothing_sent(conn)")],
-           modifies=["conn.state", "conn._last_dwr"], props=["C07", "C11", "C12", "C09"])
+           modifies=["conn.state", "conn._last_dwr"], props=["C07", "C11", "C12", "C09", "C10"])
 R.contract("Node.receive_dpa", params={"self": "Node", "conn": "PeerConnection", "message": "Message"},
            ensures=[("closing", "conn.state == %d" % CLOSING), ("nothing-sent", "nothing_sent(conn)"),
                     ("the-io-loop-is-woken-to-close-the-connection", "conn.g_attn == old(conn.g_attn) + 1")],
